@@ -33,6 +33,8 @@ genoverlay() {
 {"Replace": {
  "$REPO/mappollard.go": "$gen/mappollard.go",
  "$REPO/verifsync/vsync.go": "/verif/vmc/overlay/verifsync/vsync.go",
+ "$REPO/verifsync/track.go": "/verif/vmc/overlay/verifsync/track.go",
+ "$REPO/verifsync/track_race.go": "/verif/vmc/overlay/verifsync/track_race.go",
  "$REPO/zz_verif_export.go": "/verif/vmc/overlay/zz_verif_export.go"
 }}
 JSON
